@@ -123,6 +123,9 @@ def read_dump(path) -> list:
 # --------------------------------------------------------------------------
 # TLC
 # --------------------------------------------------------------------------
+_TLC_SEQ = __import__("itertools").count()
+
+
 class TLCResult:
     def __init__(self):
         self.ok = False
@@ -142,7 +145,7 @@ def run_tlc(module: str, cfg: str, workdir: Path, *, dump=False, workers=None, s
     """Run TLC on specs/<module>.tla with the given cfg text.  Exhaustive BFS unless simulate="num=N"."""
     workdir = Path(workdir)
     workdir.mkdir(parents=True, exist_ok=True)
-    tag = "%s_%d" % (module, int(time.time() * 1000) % 10**9)
+    tag = "%s_%d_%d" % (module, int(time.time() * 1000) % 10**9, next(_TLC_SEQ))      # unique also across concurrent threads
     cfgp = workdir / (tag + ".cfg")
     cfgp.write_text(cfg)
     md = workdir / (tag + ".md")
@@ -405,6 +408,16 @@ def write_ndjson(path, events):
             f.write("\n")
 
 
+WORKER_INIT = []        # callables run in every forked worker before it takes work (celx varies the order its environments are created in)
+
+
+def _worker_init():
+    import multiprocessing as mp
+    ident = (mp.current_process()._identity or (0,))[0]
+    for f in WORKER_INIT:
+        f(ident)
+
+
 def pmap(fn, items, procs=None, chunk=None):
     """Parallel map over forked workers (order preserved)."""
     items = list(items)
@@ -417,7 +430,7 @@ def pmap(fn, items, procs=None, chunk=None):
     gc.collect()
     gc.freeze()        # keep the parent's heap out of the children's collections (copy-on-write storms)
     try:
-        with mp.get_context("fork").Pool(procs) as pool:
+        with mp.get_context("fork").Pool(procs, initializer=_worker_init) as pool:
             return pool.map(fn, items, chunksize=chunk)
     finally:
         gc.unfreeze()
